@@ -10,6 +10,7 @@ EXPLANATION = (
     "produce (enums with `self as u8` encoders are compared against their discriminants); no panic-capable construct "
     "reachable from NtpPacket::serialize can fire for a decoded packet (PANIC with audit, including constructors bypassed by "
     "decoders); the field value that cannot be encoded (InvalidNtsEncryptedField) is produced only on the decrypt-error path."
+    ' Fixed-header layout: every field decoded from bytes [a, a+n) is encoded at the same offset through the inverse codec (48 bytes in one sequence, both header versions); the 32-bit duration formats are read unsigned and shifted symmetrically.'
 )
 NOT_DECIDED = ["byte-level idempotence after the normalising round (value semantics)"]
 PK = 'ntp_proto::packet'
